@@ -210,6 +210,14 @@ func run(c Case) (f *failure, nontrivial bool) {
 				return f, nontrivial
 			}
 			switch {
+			case st.Type == "pubrel" && heldIn[st.S][id]:
+				// PUBREL completes an exchange started by the client: the number also names a
+				// delivery in flight, which it leaves alone
+				delete(heldIn[st.S], id)
+				got := fresh(st.S)
+				if len(got) != 1 || got[0].Type != sim.PUBCOMP || got[0].ID != id {
+					return &failure{fmt.Sprintf("step %d: PUBREL %d for the subscriber's own held QoS 2 publish: received %v, want one PUBCOMP", si, id, got), false}, nontrivial
+				}
 			case fl != nil && fl.phase == st.Type && st.Type == "pubrec":
 				got := fresh(st.S)
 				if len(got) != 1 || got[0].Type != sim.PUBREL || got[0].ID != fl.id {
